@@ -26,7 +26,7 @@ import (
 // C06 harness: the real StreamForwarder (default mode) / handleStream's LCM branch between an in-memory initiator stream
 // and an in-memory source stream, inside a synctest bubble.
 //
-//	N default|lcm ignoreclose=0|1     new scenario
+//	N default|lcm ignoreclose=0|1 [openblock=1]    new scenario (openblock: opening the source stream blocks)
 //	s <id> | su | se | sx             the source sends a message / an unknown kind / EOF / an error
 //	i <id> | iu | ie | ix | ic        the initiator sends a sync state / unknown kind / EOF / error / cancels its context
 //	fi | fs                           from now on Send to the initiator / to the source fails
@@ -38,6 +38,10 @@ func vfwScenario(t *testing.T, lines []string, out func(string)) {
 	f0 := strings.Fields(lines[0])
 	mode := f0[1]
 	client := &vfAdminClient{ignoreCloseSend: len(f0) > 2 && f0[2] == "ignoreclose=1"}
+	if len(f0) > 3 && f0[3] == "openblock=1" {
+		// the source connection is still being established: opening the source stream blocks
+		client.openBlock = make(chan struct{})
+	}
 	md := metadata.MD{}
 	md.Set(history.MetadataKeyClientClusterID, "1")
 	md.Set(history.MetadataKeyClientShardID, "2")
@@ -95,6 +99,9 @@ func vfwScenario(t *testing.T, lines []string, out func(string)) {
 		num := func() int64 { n, _ := strconv.ParseInt(f[1], 10, 64); return n }
 		switch f[0] {
 		case "s":
+			if cs == nil {
+				break
+			}
 			cs.recv <- vfItem[vfResp]{val: &vfResp{Attributes: &adminservice.StreamWorkflowReplicationMessagesResponse_Messages{
 				Messages: &replicationv1.WorkflowReplicationMessages{ExclusiveHighWatermark: num()}}}}
 		case "su":
@@ -142,6 +149,11 @@ func vfwScenario(t *testing.T, lines []string, out func(string)) {
 		if cs != nil {
 			close(cs.recv)
 		}
+		if client.openBlock != nil {
+			close(client.openBlock)
+		}
+		time.Sleep(time.Second)
+		synctest.Wait()
 	}
 }
 
